@@ -140,7 +140,33 @@ def _single(args):
     return (str(st), op), "ok", ""
 
 
-def observe_rows(rows, predicted_hard=(), log=None):
+def _must_fail_batch(args):
+    """rows predicted ill-formed, compiled together: returns ({key: first error text} for the rows whose own line got an
+    error, [rows without an error at their line])"""
+    d, k, rows = args
+    txt, linemap = gen.must_fail_tu(rows)
+    src = os.path.join(d, "mustfail_%d.cpp" % k)
+    open(src, "w").write(txt)
+    rc, out, err = core.sh([CXX] + _flags(d) + ["-fsyntax-only", src], timeout=600)
+    if rc == 0:
+        return {}, list(rows)
+    hit = _attributed(err, os.path.basename(src), linemap)
+    msgs = {}
+    for m in re.finditer(re.escape(os.path.basename(src)) + r":(\d+):\d+: error: (.*)$", err, re.M):
+        ln = int(m.group(1))
+        if ln in linemap:
+            msgs.setdefault(linemap[ln], m.group(2)[:300])
+    failed = {}
+    rest = []
+    for i, (st, op) in enumerate(rows):
+        if i in hit:
+            failed[(str(st), op)] = msgs.get(i, "ill-formed (error inside a template instantiated from this row)")
+        else:
+            rest.append((st, op))
+    return failed, rest
+
+
+def observe_rows(rows, predicted_hard=(), log=None, predicted_kind=None):
     """rows: list of (State, op).  predicted_hard: set of (state text, op) compiled alone from the start.
     Returns dict (state text, op) -> outcome text in {To:..., Mut, No, Hard}, and a dict of diagnostics."""
     d = workdir()
@@ -162,6 +188,25 @@ def observe_rows(rows, predicted_hard=(), log=None):
         for obs, broken, rounds in ex.map(_run_rows_shard, jobs):
             observed.update(obs)
             unexpected_broken.extend(broken)
+    # the rows predicted Hard (not NoDef: that is a link failure) are first compiled in batches of must-fail functions; a row
+    # whose own line gets an error is Hard, the others (and every row that broke a shard unexpectedly) are compiled alone
+    n_batched = 0
+    predicted_kind = predicted_kind or {}
+    batchable = [r for r in singles if predicted_kind.get((str(r[0]), r[1])) == "Hard"]
+    if batchable:
+        singles = [r for r in singles if predicted_kind.get((str(r[0]), r[1])) != "Hard"]
+        # rows that differ only in const / category tend to fail inside the same template instantiation, which is reported
+        # once: deal them out over the batches
+        batchable.sort(key=lambda r: (r[1], r[0].kind, r[0].d, r[0].c, r[0].cat))
+        nb = max(1, (len(batchable) + 23) // 24)
+        jobs2 = [(d, k, batchable[k::nb]) for k in range(nb)]
+        with cf.ThreadPoolExecutor(max_workers=core.NCPU) as ex:
+            for failed, rest in ex.map(_must_fail_batch, jobs2):
+                for key, msg in failed.items():
+                    observed[key] = "Hard"
+                    diag[key] = msg
+                    n_batched += 1
+                singles.extend(rest)
     for (st, op), msg in unexpected_broken:
         singles.append((st, op))
         diag[(str(st), op)] = msg
@@ -186,6 +231,7 @@ def observe_rows(rows, predicted_hard=(), log=None):
     if log is not None:
         log["shards"] = len(jobs)
         log["singles"] = len(singles)
+        log["must_fail_rows_batched"] = n_batched
         log["unexpected_broken"] = len(unexpected_broken)
     return observed, diag
 
